@@ -470,6 +470,9 @@ func runScenario(cs *core.Case, r *rand.Rand, o scenarioOpts, tag string) *finge
 		}
 		if len(evidence) > 0 {
 			run.Count("blocks_with_evidence", 1)
+			if rs.chains[0].State.LastHeightValidatorsChanged == height+2 {
+				run.Count("evidence_blocks_changing_the_validator_set", 1)
+			}
 		}
 		if mode == "CreateProposalBlock" {
 			run.Count("proposer_built_blocks", 1)
